@@ -1,0 +1,8 @@
+//go:build !verif
+
+package mqtt
+
+import "time"
+
+// Observation point of the verification harness (build tag "verif"); no-op.
+func verifBackoffIdle(time.Duration) {}
